@@ -28,6 +28,23 @@ TABLE = [
     ("c20", ["C20"], "the HDF5-level deep copy (H5Group.copy: H5Ocopy + id regeneration) behind create_block / create_data_array / "
                      "create_tag / ... (copy_from=), copy_section and create_property(copy_from=): content, internal links, id policy, "
                      "independence"),
+    ("c17", ["C17"], "H5Fflush / the OS page cache (the assumption behind the File.flush / File.close contracts): writer processes killed "
+                     "with SIGKILL right after flush() / close() returned"),
+    ("c19", ["C19"], "the setters not under contract (feature link type / data, append_sampled_dimension, "
+                     "append_range_dimension_using_self, group / source / section attributes through Entity) and `no other entity's "
+                     "timestamps` across the whole file; strftime / strptime behind the text round trip"),
+    ("c14", ["C14"], "check_data_array, check_tag, check_multi_tag, check_feature, check_section and the check_file traversal (which "
+                     "object each report is filed under): single and pairwise injections into a well-formed file"),
+    ("c18", ["C18"], "the conversion closures of nixio/cmd/upgrade.py (raw h5py inside `with` blocks: update_props, update_alias_dims, "
+                     "add_id, update_ver) and file_upgrade / process_tasks: content, per-value extras, version last, idempotence, "
+                     "re-run after an interruption at every task boundary and between property conversions"),
+    ("c01", ["C01", "C06", "C15"], "create_data_array (shape / element type resolution), DataSet.__getitem__ / __setitem__ / get_slice plumbing, "
+                     "h5py selections, numpy conversion and polyval behind the calibrated reader: exact round trip, NumPy index "
+                     "semantics on arrays and views, calibration on every read path and never on the stored values"),
+    ("c10", ["C10"], "Section.__getitem__ / __setitem__ / __delitem__ / __contains__ / __iter__ / items / __len__, Property.create_new and "
+                     "the values getter (summaries in the contracts), the h5py dataset behind a property"),
+    ("c11", ["C11"], "File.__init__ (order of header check and first write), HDF5's enforcement of read-only / truncation: header "
+                     "variants written with raw h5py, every mutating call on a read-only file"),
     ("c13", ["C13"], "Source.parent_source / parent_block, Section.parent, Section.referring_* (container iteration with object "
                      "construction per element is outside the executor's subset)"),
 ]
@@ -52,8 +69,13 @@ def _mk(battery):
                                          traceback=r.stderr[-1500:])])
         if "error" in d:
             return dict(status="undecided", message=d["error"])
-        return dict(status="ok", bound=d["bound"], evaluations=d["evaluations"],
-                    violations=[dict(input=v.get("input"), what=v.get("what")) for v in d["violations"]])
+        out = dict(status="ok", bound=d["bound"], evaluations=d["evaluations"],
+                   violations=[dict(input=v.get("input"), what=v.get("what")) for v in d["violations"]])
+        for kid, samples in (d.get("known") or {}).items():
+            # inputs that show a defect listed in known_findings.json (report.py prints KNOWN-FINDING for a listed id and turns an
+            # unlisted one into a violation)
+            out["known_class"] = dict(id=kid, count=len(samples), samples=samples[:3])
+        return out
     return fn
 
 
